@@ -14,7 +14,8 @@
 (* A call is <<op, k, v>>: "U" TryUpdate(k, v) (v = 0: empty value),       *)
 (* "D" TryDelete(k), "G" TryGet(k), "H" Hash, "C" Commit, "R" re-open from *)
 (* the same NodeDatabase, "X" flush to disk and re-open from a fresh       *)
-(* NodeDatabase, "L" SetCacheLimit(v).                                     *)
+(* NodeDatabase, "L" SetCacheLimit(v), "P" NodeDatabase.Cap (v = 0: limit  *)
+(* 0, 1 / 2: half / three quarters of the current size).                   *)
 (***************************************************************************)
 EXTENDS Mpt, Json, SequencesExt
 
@@ -36,6 +37,7 @@ Calls ==
   \/ Reopen("mem") /\ Emit(<<"R", 0, 0>>)
   \/ Reopen("disk") /\ Emit(<<"X", 0, 0>>)
   \/ \E l \in {0, 2} : SetLimit(l) /\ Emit(<<"L", 0, l>>)
+  \/ \E how \in {0, 1, 2} : Cap(how) /\ Emit(<<"P", 0, how>>)
 
 GenNext == Len(hist) < Depth /\ Calls /\ UNCHANGED rng
 GenSpec == Init /\ hist = <<>> /\ rng = <<0, 0, 0>> /\ [][GenNext]_gvars
@@ -59,7 +61,8 @@ DeepOps ==
   SetToSeq({<<"D", k, 0>> : k \in KeyIds}) \o
   SetToSeq({<<"G", k, 0>> : k \in KeyIds}) \o
   Times(5, <<"C", 0, 0>>) \o Times(5, <<"R", 0, 0>>) \o Times(5, <<"X", 0, 0>>) \o
-  Times(3, <<"H", 0, 0>>) \o Times(2, <<"L", 0, 0>>) \o Times(2, <<"L", 0, 2>>)
+  Times(3, <<"H", 0, 0>>) \o Times(2, <<"L", 0, 0>>) \o Times(2, <<"L", 0, 2>>) \o
+  Times(3, <<"P", 0, 0>>) \o Times(2, <<"P", 0, 1>>) \o Times(2, <<"P", 0, 2>>)
 
 Apply(c) ==
   CASE c[1] = "U" -> Update(c[2], c[3])
@@ -70,6 +73,7 @@ Apply(c) ==
     [] c[1] = "R" -> Reopen("mem")
     [] c[1] = "X" -> Reopen("disk")
     [] c[1] = "L" -> SetLimit(c[3])
+    [] c[1] = "P" -> Cap(c[3])
 
 DeepInit == /\ Init /\ hist = <<>> /\ rng \in {Start(i) : i \in 1..Runs}
 DeepNext == /\ Len(hist) < Depth
